@@ -200,6 +200,27 @@ func checkC20(c *Ctx) {
 			}
 		}
 		rec(nil, 0)
+		// a failing line repeated k times, then a line that must answer as in a fresh session: whatever a failed line leaves
+		// behind must not add up either
+		var failing, answering []int
+		for i, p := range pool {
+			if p.Status != "done" {
+				failing = append(failing, i)
+			} else if len(p.Out) > 0 && len(answering) < 8 && (i+c.Seed)%3 == 0 {
+				answering = append(answering, i)
+			}
+		}
+		for _, f := range failing {
+			for _, k := range []int{2, 5, 20, 80} {
+				for _, v := range answering {
+					s := make([]int, 0, k+2)
+					for j := 0; j < k; j++ {
+						s = append(s, f)
+					}
+					sessions <- sess{append(s, v, f)}
+				}
+			}
+		}
 		rng := rand.New(rand.NewSource(int64(c.Seed)))
 		for k := 0; k < nRand; k++ {
 			l := maxExh + 1 + rng.Intn(randLen)
@@ -271,7 +292,7 @@ func checkC20(c *Ctx) {
 		c.cov("aborted", fmt.Sprintf("%d sessions did not end within their time limit; the remaining sessions were not run", hung))
 	}
 	c.cov("exhaustive", hung < 48)
-	c.cov("rule", fmt.Sprintf("every sequence of <= %d lines over the pool of %d representative REPL lines of FamRepl (prints, bare expressions of every value kind, declarations, nested expression statements, lexical errors, unterminated string / comment, syntax errors, runtime errors of several kinds, stray signals, empty and comment-only lines, assignment to a built-in name), plus %d seeded random sessions of up to %d lines; each line's expected response is that of a fresh session as computed by the specification pipeline (lexer, recogniser, abstract machine in interactive mode); non-trivial = a session mixing failing and succeeding lines", maxExh, len(pool), nRand, maxExh+randLen))
+	c.cov("rule", fmt.Sprintf("every sequence of <= %d lines over the pool of %d representative REPL lines of FamRepl (prints, bare expressions of every value kind, declarations, nested expression statements, lexical errors, unterminated string / comment, syntax errors, runtime errors of several kinds, stray signals, empty and comment-only lines, assignment to a built-in name), each failing line repeated 2, 5, 20 and 80 times and followed by lines that answer; plus %d seeded random sessions of up to %d lines; each line's expected response is that of a fresh session as computed by the specification pipeline (lexer, recogniser, abstract machine in interactive mode); non-trivial = a session mixing failing and succeeding lines", maxExh, len(pool), nRand, maxExh+randLen))
 	c.Ev.Assumptions = []string{"stdout and stderr of the REPL are separate streams: responses are matched on stdout between prompts, diagnostics on stderr in order", "the prompt string is learned from an empty session"}
 }
 
